@@ -26,14 +26,14 @@ theorem fieldsOf_cons_okM (pos : Nat) (name tag : String) (emb : Bool) (t : Ty) 
     cases t <;> simp only [tyOKM] at ht <;> try (exact absurd ht (by decide))
     case slice => exact absurd hns (by simp [isSlice])
     case map => exact absurd hnm (by simp [isMap])
-    case int k => cases k <;> simp_all [supportedKind, codecFor, fieldCodecOf, isStructBase, baseTy, codecOf, isEmb, wrapPtrs]
+    case int k => cases k <;> simp_all [supportedKind, codecFor, fieldCodecOf, isStructBase, embBase, baseTy, codecOf, isEmb, wrapPtrs]
     case ptr t' =>
       cases t' <;> simp only [ptrTarget, Bool.and_eq_true] at ht <;> try (exact absurd ht.1 (by decide))
       case int k =>
         cases k <;> simp only [tyOKM, supportedKind] at ht <;> try (exact absurd ht.2 (by decide))
-        all_goals simp_all [codecFor, fieldCodecOf, isStructBase, baseTy, codecOf, isEmb, wrapPtrs]
-      all_goals simp_all [codecFor, fieldCodecOf, isStructBase, baseTy, codecOf, isEmb, wrapPtrs]
-    all_goals simp only [e, hz, hf, fieldCodecOf, isStructBase, baseTy, codecOf, codecFor, isEmb, Bool.false_or]
+        all_goals simp_all [codecFor, fieldCodecOf, isStructBase, embBase, baseTy, codecOf, isEmb, wrapPtrs]
+      all_goals simp_all [codecFor, fieldCodecOf, isStructBase, embBase, baseTy, codecOf, isEmb, wrapPtrs]
+    all_goals simp only [e, hz, hf, fieldCodecOf, isStructBase, embBase, baseTy, codecOf, codecFor, isEmb, Bool.false_or]
   | some s =>
     simp only [Bool.and_eq_true, decide_eq_true_eq, Bool.not_eq_true', beq_iff_eq] at hm
     obtain ⟨⟨⟨⟨hn, hz⟩, hr⟩, hf⟩, hfit⟩ := hm
@@ -50,20 +50,20 @@ theorem fieldsOf_cons_okM (pos : Nat) (name tag : String) (emb : Bool) (t : Ty) 
       cases k <;> simp only [supportedKind] at ht <;> try (exact absurd ht (by decide))
       all_goals
         cases w <;>
-        simp_all [fixedFits, isFixedWire, optOK, codecFor, fieldCodecOf, isStructBase, baseTy, codecOf, isEmb, wrapPtrs]
+        simp_all [fixedFits, isFixedWire, optOK, codecFor, fieldCodecOf, isStructBase, embBase, baseTy, codecOf, isEmb, wrapPtrs]
     case ptr t' =>
       cases t' <;> simp only [ptrTarget, Bool.and_eq_true] at ht <;> try (exact absurd ht.1 (by decide))
       case int k =>
         cases k <;> simp only [tyOKM, supportedKind] at ht <;> try (exact absurd ht.2 (by decide))
         all_goals
           cases w <;>
-          simp_all [fixedFits, isFixedWire, optOK, codecFor, fieldCodecOf, isStructBase, baseTy, codecOf, isEmb, wrapPtrs]
+          simp_all [fixedFits, isFixedWire, optOK, codecFor, fieldCodecOf, isStructBase, embBase, baseTy, codecOf, isEmb, wrapPtrs]
       all_goals
         cases w <;>
-        simp_all [fixedFits, isFixedWire, optOK, codecFor, fieldCodecOf, isStructBase, baseTy, codecOf, isEmb, wrapPtrs]
+        simp_all [fixedFits, isFixedWire, optOK, codecFor, fieldCodecOf, isStructBase, embBase, baseTy, codecOf, isEmb, wrapPtrs]
     all_goals
       cases w <;>
-      simp_all [fixedFits, isFixedWire, optOK, codecFor, fieldCodecOf, isStructBase, baseTy, codecOf, isEmb, wrapPtrs]
+      simp_all [fixedFits, isFixedWire, optOK, codecFor, fieldCodecOf, isStructBase, embBase, baseTy, codecOf, isEmb, wrapPtrs]
 
 /-- **bridge, repeated fields** (`fieldsOf_cons_slice` on `tyOKM`) -/
 theorem fieldsOf_cons_sliceM (pos : Nat) (name tag : String) (emb : Bool) (e : Ty) (rest : Fields)
@@ -79,7 +79,7 @@ theorem fieldsOf_cons_sliceM (pos : Nat) (name tag : String) (emb : Bool) (e : T
   simp only [tyOKM, elemTy, Bool.and_eq_true, Bool.not_eq_true'] at ht
   simp only [optOK, Bool.and_eq_true, Bool.not_eq_true'] at ho
   have hemb : isStructBase e = isStructTy e := by
-    cases e <;> simp_all [isStructBase, baseTy, isStructTy, isPtr, tyOKM]
+    cases e <;> simp_all [isStructBase, embBase, baseTy, isStructTy, isPtr, tyOKM]
   have hfc : ∀ n, fieldCodecOf n (.slice e) = (isStructTy e, true, .slice (codecOf e) n (codecOf e).wire (isStructTy e)) := by
     intro n
     cases e <;> simp_all [fieldCodecOf, tyOKM]
@@ -122,8 +122,8 @@ theorem fieldCodecOf_part (n : Nat) (t : Ty) (ht : tyOKM t = true) (hns : isSlic
   case map => exact absurd hnm (by simp [isMap])
   case ptr t' =>
     cases t' <;> simp only [ptrTarget, Bool.and_eq_true] at ht <;> try (exact absurd ht.1 (by decide))
-    all_goals simp [fieldCodecOf, isStructBase, baseTy, isEmb]
-  all_goals simp [fieldCodecOf, isStructBase, baseTy, isEmb]
+    all_goals simp [fieldCodecOf, isStructBase, embBase, baseTy, isEmb]
+  all_goals simp [fieldCodecOf, isStructBase, embBase, baseTy, isEmb]
 
 theorem isStructBase_isEmb (t : Ty) (ht : tyOKM t = true) (hns : isSlice t = false) (hnm : isMap t = false) :
     isStructBase t = isEmb t := by
@@ -132,8 +132,8 @@ theorem isStructBase_isEmb (t : Ty) (ht : tyOKM t = true) (hns : isSlice t = fal
   case map => exact absurd hnm (by simp [isMap])
   case ptr t' =>
     cases t' <;> simp only [ptrTarget, Bool.and_eq_true] at ht <;> try (exact absurd ht.1 (by decide))
-    all_goals simp [isStructBase, baseTy, isEmb]
-  all_goals simp [isStructBase, baseTy, isEmb]
+    all_goals simp [isStructBase, embBase, baseTy, isEmb]
+  all_goals simp [isStructBase, embBase, baseTy, isEmb]
 
 theorem mapTy_parts {kt vt : Ty} (ht : tyOKM (.map kt vt) = true) :
     keyTy kt = true ∧ isSlice vt = false ∧ isMap vt = false ∧ tyOKM vt = true := by
